@@ -29,14 +29,43 @@ PV = 'sdc11073.provider.providerimpl.SdcProvider'
 OM = 'sdc11073.consumer.operations.OperationsManager'
 
 
+_CUR = {}   # the function whose calls are being looked at: locals are followed back to their origin / their dict literal
+
+
+def _origin(c, e):
+    g = _CUR.get('g')
+    if g is None:
+        return unparse(e)
+    h = g.holder(c)
+    return g.origin_text(h, e) if h is not None else unparse(e)
+
+
 def _notify_state(c):
-    """Third positional argument of notify_operation (the invocation state) as text."""
+    """Third positional argument of notify_operation (the invocation state) as text (a local alias is followed back)."""
     if len(c.args) >= 3:
-        return unparse(c.args[2])
+        return _origin(c, c.args[2])
     for k in c.keywords:
         if k.arg == 'invocation_state':
-            return unparse(k.value)
+            return _origin(c, k.value)
     return None
+
+
+def _kw_names(c):
+    """Keyword names of a call; `**d` counts with the constant keys of the dict literal the local d is bound to."""
+    out = set()
+    g = _CUR.get('g')
+    for k in c.keywords:
+        if k.arg is not None:
+            out.add(k.arg)
+        elif isinstance(k.value, ast.Name) and g is not None:
+            h = g.holder(c)
+            d = g.unique_def(h, k.value.id) if h is not None else None
+            v = g.def_value(d, k.value.id) if d is not None else None
+            if isinstance(v, ast.Dict):
+                out |= {x.value for x in v.keys if isinstance(x, ast.Constant) and isinstance(x.value, str)}
+        elif isinstance(k.value, ast.Dict):
+            out |= {x.value for x in k.value.keys if isinstance(x, ast.Constant) and isinstance(x.value, str)}
+    return out
 
 
 def _notify_tid(c):
@@ -144,6 +173,7 @@ def run(ctx):  # noqa: C901, PLR0912, PLR0915
     # ------------------------------------------------------------------ R2
     g = cfg_of(run_)
     g.assume_logging_does_not_raise()
+    _CUR['g'] = g
     nodes = {}
     for n, c in g.nodes_calling('notify_operation'):
         nodes.setdefault(_notify_state(c), []).append((n, c))
@@ -182,12 +212,13 @@ def run(ctx):  # noqa: C901, PLR0912, PLR0915
                'every path from START back to the queue delivers the result state or FAILED (or the FAILED '
                'notification itself could not be sent)' if not leak else
                'a path from START returns to the queue without any final notification', fi=run_)
-        kw = {k.arg for k in failed[0][1].keywords}
+        kw = _kw_names(failed[0][1])
         ctx.ob('C09.R2', 'Fail carries error information', {'error', 'error_message'} <= kw,
                'the FAILED notification passes error and error_message', fi=run_, node=failed[0][1])
         ctx.ob('C09.R2', 'result state from the handler', _notify_state(result[0][1]) == 'execute_result.invocation_state',
                'the final state notified on success is execute_result.invocation_state', fi=run_)
     gd = cfg_of(direct)
+    _CUR['g'] = gd
     enq_n = gd.nodes_calling('enqueue_operation')
     rets = [n for n in gd.nodes if n.kind == 'return']
     ok = bool(enq_n)
@@ -223,6 +254,7 @@ def run(ctx):  # noqa: C901, PLR0912, PLR0915
 
     # ------------------------------------------------------------------ R4
     for fi, label in ((direct, 'direct'), (run_, 'queued')):
+        _CUR['g'] = cfg_of(fi)
         exes = calls_in(fi.node, 'execute_operation')
         ok = bool(exes)
         for c in exes:
@@ -234,7 +266,7 @@ def run(ctx):  # noqa: C901, PLR0912, PLR0915
                         if h.type is None or 'Exception' in unparse(h.type):
                             hn = [x for x in calls_in(h, 'notify_operation')]
                             if hn and _notify_state(hn[0]) == 'InvocationState.FAILED' and \
-                                    {'error', 'error_message'} <= {k.arg for k in hn[0].keywords}:
+                                    {'error', 'error_message'} <= _kw_names(hn[0]):
                                 found = True
                     break
                 child, cur = cur, getattr(cur, '_parent', None)
@@ -301,9 +333,23 @@ def run(ctx):  # noqa: C901, PLR0912, PLR0915
     orp = repo.func(f'{OM}.on_operation_invoked_report')
     g = cfg_of(orp)
     sr = g.nodes_calling('set_result')
-    pops = g.nodes_calling('pop')
-    ok = bool(sr) and bool(pops) and all(any(g.dominates(p, s) for p, _ in pops) for s, _ in sr) and \
-        all(('transaction_id in self._transactions', True) in g.facts_at(s) for s, _ in sr)
+    def _registered(node):
+        """True / False when the branch facts at node say that the transaction is / is not in self._transactions - written as
+        `k in self._transactions` or as a `.get(k)` that is (not) None, directly or through a local (symbolic facts)."""
+        for t, p in g.facts_symbolic(node):
+            if t.endswith(' in self._transactions'):
+                return p
+            if t.startswith('self._transactions.get(') and t.endswith(' is None'):
+                return not p
+            if t.startswith('self._transactions.get(') and t.endswith(')'):
+                return p
+        return None
+    # removal from the table: pop(..) or del self._transactions[..]
+    pops = [n for n, c in g.nodes_calling('pop') if '_transactions' in unparse(c.func)] + \
+        [n for n in g.real_nodes() if n.kind == 'stmt' and isinstance(n.stmt, ast.Delete)
+         and any('self._transactions[' in unparse(t) for t in n.stmt.targets)]
+    ok = bool(sr) and bool(pops) and all(any(g.dominates(p, s) for p in pops) for s, _ in sr) and \
+        all(_registered(s) is True for s, _ in sr)
     ctx.ob('C09.R6', 'report completes a registered transaction once', ok,
            'on_operation_invoked_report completes a Future only after removing its transaction from the table', fi=orp)
     # non-final states never complete
@@ -311,7 +357,7 @@ def run(ctx):  # noqa: C901, PLR0912, PLR0915
     ctx.ob('C09.R6', 'only final states complete', ok, 'WAIT / START reports never complete the Future', fi=orp)
     # unknown transactions are buffered for a later call_operation
     buf = [n for n, c in g.nodes_calling('append') if '_last_operation_invoked_reports' in unparse(c.func)]
-    ok = bool(buf) and all(('transaction_id in self._transactions', False) in g.facts_at(n) for n in buf)
+    ok = bool(buf) and all(_registered(n) is False for n in buf)
     ctx.ob('C09.R6', 'early reports are kept', ok,
            'a report for a not yet registered transaction is kept for the later call_operation', fi=orp)
 
